@@ -164,6 +164,23 @@ theorem image_instant_partial (app : R → M → M) (s0 : St M R) (hfresh : Fres
   rw [run_append, stage5_run_frozen app _ es' h5 hes']
   exact image_is_prefix_of_history_partial app s0 hfresh es hnc h5
 
+/-- the writes done in a history are those of its first part followed by those of the rest -/
+theorem writesDone_append (app : R → M → M) (s : St M R) (a b : List (Evt R)) :
+    writesDone app s (a ++ b) = writesDone app s a ++ writesDone app (run app s a) b := by
+  induction a generalizing s with
+  | nil => rfl
+  | cons e a ih =>
+    have hrun : run app s (e :: a) = run app (step app s e) a := rfl
+    simp only [List.cons_append, writesDone, ih, hrun, List.append_assoc]
+
+/-- **the image is a cut of the whole history**: what the image holds (the writes done up to the final savepoint)
+    is a prefix of the writes done by the complete history, however the history goes on after the backup — and
+    the live store ends with all of them (`mem_is_writes`): the backup removes nothing from the live store. -/
+theorem image_writes_prefix_of_final (app : R → M → M) (s0 : St M R) (es rest : List (Evt R)) :
+    writesDone app s0 es <+: writesDone app s0 (es ++ rest) ∧
+      (run app s0 (es ++ rest)).mem = replay app (writesDone app s0 (es ++ rest)) s0.mem :=
+  ⟨⟨_, (writesDone_append app s0 es rest).symm⟩, mem_is_writes app s0 (es ++ rest)⟩
+
 /-- a crashed store does nothing (F25 is terminal in the model: no later event hides it) -/
 theorem crashed_step_frozen (app : R → M → M) (s : St M R) (e : Evt R) (hc : s.crashed = true) :
     step app s e = s := by
